@@ -8,6 +8,7 @@ import (
 
 func TestReplay(t *testing.T) {
 	verif.ReplayMain(map[string]func(){
-		"HarnessShapes": HarnessShapes,
+		"HarnessSequence": HarnessSequence,
+		"HarnessShapes":   HarnessShapes,
 	})
 }
